@@ -794,6 +794,8 @@ pub fn gen_main(args: &[String]) -> i32 {
         "small_values" => crate::gen2::suite_small_values(&mut out, tier, &mut rng),
         "many_avps" => crate::gen2::suite_many_avps(&mut out, tier, &mut rng),
         "avp_lengths" => crate::gen2::suite_avp_lengths(&mut out, tier, &mut rng),
+        "kind_pairs" => crate::gen2::suite_kind_pairs(&mut out, tier, &mut rng),
+        "octet_sweep" => crate::gen2::suite_octet_sweep(&mut out, tier, &mut rng),
         "history" => crate::gen2::suite_history(&mut out, tier, &mut rng),
         "ignored" => crate::gen2::suite_ignored(&mut out, tier, &mut rng),
         "reveal_plain" => crate::gen2::suite_reveal_plain(&mut out, tier, &mut rng),
